@@ -372,6 +372,26 @@ func main() {
 	o.def("recorderConfigFields", "String", lstr(rcFields), "recorder.NewConfig: the RecorderConfig literal")
 	o.def("recorderConfigValidate", "String", lstr(condOf(rcGo, "validate", "MaxSecs")), "RecorderConfig.validate: the rejected case")
 
+	// ---- frameParser: which parser handles which camera (C13)
+	fpMap := "<missing>"
+	if fd := funcDecl(trMain, "frameParser"); fd != nil {
+		var parts []string
+		for _, n := range findAll(fd, func(n ast.Node) bool { _, ok := n.(*ast.CaseClause); return ok }) {
+			cc := n.(*ast.CaseClause)
+			var keys []string
+			for _, e := range cc.List {
+				keys = append(keys, src(e))
+			}
+			body := ""
+			for _, st := range cc.Body {
+				body += strings.Join(strings.Fields(src(st)), " ")
+			}
+			parts = append(parts, strings.Join(keys, ",")+"=>"+body)
+		}
+		fpMap = strings.Join(parts, ";")
+	}
+	o.def("frameParserMap", "String", lstr(fpMap), "frameParser: camera model -> parser")
+
 	// ---- main.go wiring (C05, C11)
 	o.def("throttleGuardExpr", "String", lstr(condOf(trMain, "handleConn", "Throttler")), "handleConn: condition under which the throttle wraps the recorder")
 	minSecs := "<missing>"
